@@ -259,7 +259,8 @@ def run(chk, w):
                                           "by": "field invariant t_bidib_train_peripheral_mapping.bit in [%d,%d]: every record appended to a train's peripheral list without the parser's error flag passed the range comparison" % inv})
                 else:
                     chk.violation("C09-RNG", f.name, base[1], gep.loc(), "group byte index is not bounded: %s; field invariant for .bit: %s; index range: %s" % (detail, inv, idx_iv))
-    chk.floor("function_group_calls", ngrp, 5)
+    if ngrp == 0:
+        chk.abstain("C09-GROUP", "no function-group ladder with per-branch bit ranges found (e.g. rewritten as a table-driven loop): rule not applicable", "")
 
 
 def opt_rule(chk, w, S, rid):
